@@ -16,6 +16,7 @@ import CSD.Lemmas.RPDACPrefix4
 import CSD.Lemmas.PFCPrefixD
 import CSD.Lemmas.FM11
 import CSD.Lemmas.RPFC9
+import CSD.Lemmas.FM18
 
 namespace CSD.Props.C04
 open CSD
@@ -153,5 +154,17 @@ theorem rpfc_prefix_models_match_source_text :
     Generated.body_RPFC_searchPrefix = SourceText.body_RPFC_searchPrefix ∧
     Generated.body_RPFC_searchDistinctPrefix = SourceText.body_RPFC_searchDistinctPrefix :=
   ⟨rfl, rfl, rfl, rfl, rfl⟩
+
+
+/-- `StringDictionaryFMINDEX::extractPrefix`: NULL when no member starts with the pattern; otherwise the string
+iterator opened on the range of `locatePrefix` drains to exactly the members that start with it, in ID order —
+`#{s < p}` members are skipped and `#{p prefix of s}` are yielded. -/
+theorem fmindex_extract_prefix_exact {S : List Str} {L : List FM.Row} {d : FM.Dict} (hv : validDict S = true)
+    (hd : FM.DictOK S L d) (hml : ∀ s ∈ S, s.length < d.maxlength) (p : Str) (hp : p.all validByte = true) (hne : p ≠ []) :
+    d.extractPrefix p =
+      some (if S.countP (fun s => (FM.symsOf p).isPrefixOf (FM.symsOf s)) = 0 then none
+            else some (((S.drop (S.countP (fun s => decide (FM.symsOf s < FM.symsOf p)))).take
+                          (S.countP (fun s => (FM.symsOf p).isPrefixOf (FM.symsOf s)))).map FM.symsOf)) :=
+  FM.extractPrefix_spec hv hd hml p hp hne
 
 end CSD.Props.C04
